@@ -80,18 +80,18 @@ namespace awkward {
 
   void
   RecordBuilder::clear() {
+    // Forget the data but keep the record type (name and fields), like the
+    // other builders keep theirs: the contents stay aligned with the keys, and
+    // 'length_' stays a count (-1 only means "no record seen yet").
     for (auto x : contents_) {
       x.get()->clear();
     }
-    keys_.clear();
-    pointers_.clear();
-    name_ = "";
-    nameptr_ = nullptr;
-    length_ = -1;
+    if (length_ != -1) {
+      length_ = 0;
+    }
     begun_ = false;
     nextindex_ = -1;
     nexttotry_ = 0;
-    keys_size_ = 0;
   }
 
   const ContentPtr
